@@ -135,6 +135,9 @@ inline bool set_insert(uint64_t* tab, size_t cap, long& used, long& capped, uint
 } // namespace nmc
 
 const char* nmc_property();
+#ifdef NMC_POST_CASE
+void nmc_post_case(const nmc::Case&, nmc::Outcome&);
+#endif
 void nmc_enumerate(const nmc::Tier&, const nmc::Sink&);
 nmc::Outcome nmc_execute(const nmc::Case&);
 void nmc_selftest();
@@ -165,6 +168,9 @@ inline int run_child(const Opt& o, long resume, FILE* out, double t_end) {
         try { r = nmc_execute(c); }
         catch (const std::exception& e) { r = Outcome::bad("crash", std::string("uncaught exception: ") + e.what()); sh->crashes++; }
         catch (...) { r = Outcome::bad("crash", "uncaught exception (non-std)"); sh->crashes++; }
+#ifdef NMC_POST_CASE
+        nmc_post_case(c, r);      // e.g. C02: turn an out-of-range hook event observed during the case into the case's verdict
+#endif
         alarm(0);
         sh->started = 0;
         sh->evaluations++;
@@ -213,6 +219,9 @@ inline int main_(int argc, char** argv) {
         try { r = nmc_execute(c); }
         catch (const std::exception& e) { r = Outcome::bad("crash", std::string("uncaught exception: ") + e.what()); }
         catch (...) { r = Outcome::bad("crash", "uncaught exception (non-std)"); }
+#ifdef NMC_POST_CASE
+        nmc_post_case(c, r);
+#endif
         if (r.fail.empty()) { printf("PASS\t%s\nOUTCOME\t%016llx\tP\n", o.one.c_str(), (unsigned long long)r.outcome); return 0; }
         printf("FAIL\t%s\t%s\t%s\nOUTCOME\t%016llx\t%s\n", r.kind, o.one.c_str(), r.fail.c_str(), (unsigned long long)r.outcome, r.kind); return 1;
     }
